@@ -18,6 +18,9 @@ type vParser struct {
 	sameObs func() bool
 	// shifted: object 1 equals object 0 with every position shifted by k.
 	shifted func(k int) bool
+	// twin (optional): give the other object the caller-supplied things that
+	// reset deliberately keeps in object `which` (used by the reset driver).
+	twin func(which int)
 	// more is the verdict that means "call again with more bytes".
 	more ErrorHdr
 }
@@ -138,6 +141,9 @@ func vResetLike(p *vParser, a []byte, b []byte) {
 	}
 	p.parse(0, a[:cut], 0)
 	p.reset(0)
+	if p.twin != nil {
+		p.twin(0)
+	}
 	vAssert("reset-state", p.same())
 	o0, e0 := p.parse(0, b, 0)
 	o1, e1 := p.parse(1, b, 0)
